@@ -363,11 +363,18 @@ def units_c05(tier):
         us.append(Emit(fam, "bulkget", 2, m="any", ns=1))
         us.append(EmitAfterReconfigure(fam, False))
         us.append(EmitAfterReconfigure(fam, True))
+        other = "V2C" if fam == "V1" else "V1"
+        us.append(EmitAfterReconfigure(fam, False, other))
+        us.append(EmitAfterReconfigure(fam, True, other))
     return us
 
 
 def ctxless_int(n):
     return n
+
+
+def units_family_switch(tier):
+    return [AnswerAfterFamilySwitch(a, b, st) for (a, b) in (("V1", "V2C"), ("V2C", "V1")) for st in (True, False)]
 
 
 def units_rx(tier):
@@ -397,14 +404,15 @@ class EmitAfterReconfigure(WireUnit):
     props = ("C05", "C18")
     target = "puresnmp.api.raw:Client.multiget"
 
-    def __init__(self, family, temporary):
-        self.family, self.temporary = family, temporary
+    def __init__(self, family, temporary, family2=None):
+        self.family, self.temporary, self.family2 = family, temporary, family2 or family
         mv = family.lower()
         self.functions = (self.target, "puresnmp.api.raw:Client._send", "puresnmp.api.raw:Client.configure",
                           "puresnmp.api.raw:Client.reconfigure",
                           "puresnmp_plugins.mpm.%s:%sMPM.encode" % (mv, family),
                           "puresnmp_plugins.security.%s:SNMP%sSecurityModel.generate_request_message" % (mv, mv))
-        self.name = "%s multiget, %s(credentials=other community), multiget" % (family, "reconfigure" if temporary else "configure")
+        self.name = "%s multiget, %s(credentials=other community%s), multiget" % (
+            family, "reconfigure" if temporary else "configure", "" if self.family2 == family else " of family %s" % self.family2)
 
     def run(self, interp):
         ctx, rt = interp.ctx, self.rt
@@ -414,7 +422,7 @@ class EmitAfterReconfigure(WireUnit):
         def sender(i, a, k):
             sent.append((a, k))
             raise PyExc(rt.instantiate(i, tmo, ["stop"], {}))
-        c1, c2 = self.creds(interp, self.family), self.creds(interp, self.family)
+        c1, c2 = self.creds(interp, self.family), self.creds(interp, self.family2)
         rt.call_hooks["Opaque"] = self.x.h_opaque_call
         client = rt.instantiate(interp, get_cls(rt, interp, "puresnmp.api.raw:Client"), ["192.0.2.1", c1],
                                 {"sender": Builtin("sender", sender)})
@@ -440,9 +448,10 @@ class EmitAfterReconfigure(WireUnit):
             interp.ctx.check(oname(p, self.target, "ensures", "three-datagrams"), ok)
         if not ok:
             return "?"
-        version = 0 if self.family == "V1" else 1
         expect = [c1, c2, c1 if self.temporary else c2]
         for n, (cr, (a, k)) in enumerate(zip(expect, sent)):
+            # the version field follows the credentials' family (V2C is a subclass of V1: a switch between the two is a switch)
+            version = 0 if cr.cls.name == "V1" else 1
             F = rfc.Forms("x690")
             rid = self.clock_vals[n] if n < len(self.clock_vals) else SInt(z3.Int("no-clock-read"))
             spec = rfc.community_message(version, SBytes(rt.f_str_ascii(cr.fields["community"].e)),
@@ -451,6 +460,50 @@ class EmitAfterReconfigure(WireUnit):
                 ctx.check(oname(p, self.target, "ensures", "request-%d-carries-the-credentials-in-force-when-it-is-sent" % (n + 1)),
                           interp.eq(a[1], spec))
         return "emitted"
+
+
+class AnswerAfterFamilySwitch(WireUnit):
+    """C07 (version clause) after configure(credentials=<the other community family>): a response carrying the version of the
+    family the client had BEFORE the switch is refused, one carrying the new family's version (and community) is accepted."""
+    props = ("C07",)
+    target = "puresnmp.api.raw:Client.multiget"
+
+    def __init__(self, family, family2, stale_version):
+        self.family, self.family2, self.stale = family, family2, stale_version
+        self.functions = (self.target, "puresnmp.api.raw:Client._send", "puresnmp.api.raw:Client.configure")
+        self.name = "%s client, configure(credentials=%s), multiget answered with the %s version" % (
+            family, family2, "old family's" if stale_version else "new family's")
+
+    def run(self, interp):
+        ctx, rt = interp.ctx, self.rt
+        c1, c2 = self.creds(interp, self.family), self.creds(interp, self.family2)
+        rt.call_hooks["Opaque"] = self.x.h_opaque_call
+        val = self.xv.fresh(ctx, "value")
+        oid = ctx.fresh_oid("oid")
+        F = rfc.Forms("min")
+        vnew = 0 if self.family2 == "V1" else 1
+        vold = 0 if self.family == "V1" else 1
+
+        def sender(i, a, k):
+            rid = self.clock_vals[-1]
+            version = vold if self.stale else vnew
+            return rfc.community_message(version, SBytes(rt.f_str_ascii(c2.fields["community"].e)),
+                                         rfc.pdu(rfc.RESPONSE, rid, 0, 0, [(oid, WVal(val))], F), F)
+        client = rt.instantiate(interp, get_cls(rt, interp, "puresnmp.api.raw:Client"), ["192.0.2.1", c1],
+                                {"sender": Builtin("sender", sender)})
+        interp.call(BoundMethod(get_func(rt, interp, "puresnmp.api.raw:Client.configure"), client), [], {"credentials": c2})
+        exc = res = None
+        try:
+            res = interp.call(BoundMethod(get_func(rt, interp, self.target), client), [[oid]], {})
+        except PyExc as pe:
+            exc = pe.obj
+        if self.stale:
+            ctx.check(oname("C07", self.target, "raises", "a-response-of-the-family-before-the-switch-is-refused"),
+                      exc is not None and exc_is(exc, get_cls(rt, interp, "puresnmp.exc:SnmpError")))
+            return "raises"
+        ctx.check(oname("C07", self.target, "ensures", "a-response-of-the-new-family-is-accepted"),
+                  exc is None and isinstance(res, list) and len(res) == 1 and interp.eq(res[0], val))
+        return "returns"
 
 
 class TrapReceiver(VU):
